@@ -455,20 +455,20 @@ func Run(c *common.Ctx) error {
 	}
 
 	// ---------- chunked bodies ----------
-	sizes := []int{0, 1, 2, 100, 65534, 65535, 65536, 65537, 2*65535 + 1}
+	sizes := []int{65535, 2 * 65535, 65536, 65534, 0, 65537, 2*65535 + 1, 1, 3 * 65535, 100, 2} // the chunk size limit and its multiples first
 	for i := 0; i < c.Pick(40, 300); i++ {
 		r := c.Rng.Fork()
 		nw := 1 + r.Intn(4)
 		var ws [][]byte
 		total := 0
-		bigOK := i%10 == 0
+		bigOK := i%5 == 0
 		for j := 0; j < nw; j++ {
 			n := r.Intn(300)
 			if r.Chance(20) {
 				n = 0
 			}
 			if bigOK && j == 0 {
-				n = sizes[(i/10)%len(sizes)]
+				n = sizes[(i/5)%len(sizes)]
 			}
 			ws = append(ws, r.Bytes(n))
 			total += n
